@@ -56,7 +56,9 @@ impl Engine for C09 {
         ]
     }
     fn exhaustive(&self, tier: Tier) -> Vec<Program> {
-        neighbour_family(tier)
+        let mut v = neighbour_family(tier);
+        v.extend(recycled_family());
+        v
     }
     fn exhaustive_note(&self, _tier: Tier) -> String {
         "fixed family (not exhaustive): values whose digests share the first byte, and the first two bytes, of their hex address (same content sub-directories), under SHA-256 and SHA-1; every removal kind applied to one of them in both flavours".into()
@@ -69,8 +71,26 @@ impl Engine for C09 {
     }
     fn run_case(&self, prog: &Program, st: &mut Stats, env: &mut WorkerEnv) -> Result<(), String> {
         env.scratch.reset();
+        // the "recycled" family: the cache lives on the disk filesystem (where a deleted file's
+        // inode number is handed out again at once) and nobody looks between the steps
+        let recycled = prog.keys.first().map(|k| k.starts_with(RECYCLED)).unwrap_or(false);
+        let disk_cache = crate::exec::other_fs_dir(&env.scratch.scratch).join("recycled-cache");
+        if recycled {
+            let _ = std::fs::remove_dir_all(&disk_cache);
+            std::fs::create_dir_all(&disk_cache).map_err(|e| format!("INFRA: {e}"))?;
+            st.class("cache_on_the_disk_filesystem_no_looks_between_steps");
+        }
+        struct Rm(Option<std::path::PathBuf>);
+        impl Drop for Rm {
+            fn drop(&mut self) {
+                if let Some(p) = &self.0 {
+                    let _ = std::fs::remove_dir_all(p);
+                }
+            }
+        }
+        let _rm = Rm(if recycled { Some(disk_cache.clone()) } else { None });
         // the cache directory is spelled in different (equivalent) ways from case to case
-        let ctx = Ctx::new(env.scratch.cache_alias(hash_of(prog) >> 3), env.scratch.scratch.clone(), &prog.keys, &prog.blobs);
+        let ctx = Ctx::new(if recycled { disk_cache.clone() } else { env.scratch.cache_alias(hash_of(prog) >> 3) }, env.scratch.scratch.clone(), &prog.keys, &prog.blobs);
         let mut model = Model::new();
         let addrs = basic::addr_universe(prog);
         let mut nontrivial = false;
@@ -106,7 +126,7 @@ impl Engine for C09 {
             let r = run_step(&ctx, step);
             st.eval(1);
             model.step(&ctx, step, &r.out, r.t0, r.t1).map_err(|e| format!("{}: {e}", basic::describe_step(prog, i)))?;
-            if removal || i + 1 == prog.steps.len() {
+            if (removal && !recycled) || i + 1 == prog.steps.len() {
                 let after = |e: String| format!("after {}: {e}", basic::describe_step(prog, i));
                 basic::sweep_keys(&ctx, &mut model, st, true, i).map_err(after)?;
                 basic::sweep_addrs(&ctx, &mut model, st, &addrs, i).map_err(after)?;
@@ -129,6 +149,40 @@ impl Engine for C09 {
         }
         Ok(())
     }
+}
+
+const RECYCLED: &str = "recycled-bucket";
+
+/// write, look, remove everything (clear / full removal), write the same key again with a record
+/// of exactly the same length, look: whatever was remembered about the first bucket file (by
+/// path, length, inode number) describes the second one too — and is stale.
+fn recycled_family() -> Vec<Program> {
+    use crate::blob::Blob;
+    let mut out = Vec::new();
+    for v in 0..12usize {
+        let keys = vec![format!("{RECYCLED}-{}", v % 3), "other".to_string()];
+        let blobs = vec![Blob::new(40, 1 + v as u64), Blob::new(40, 100 + v as u64)];
+        let fl = |n: usize| if (v + n) % 2 == 0 { Fl::Sync } else { Fl::Async };
+        let wr = |blob: usize, time: &str, g: u32| {
+            let mut w = WriteSpec::simple(Some(0), blob);
+            w.entry = WEntry::Opts;
+            w.time = Some(time.to_string());
+            w.metadata = Some(serde_json::json!({ "g": g }));
+            w.raw_metadata = Some(vec![g as u8; 3]);
+            Op::Write(w)
+        };
+        let mut steps = vec![Step { op: wr(0, "1000", 1), fl: fl(0) }];
+        for n in 0..3 {
+            steps.push(Step { op: [Op::Meta { key: 0 }, Op::List, Op::Read { key: 0 }][(v + n) % 3].clone(), fl: if n == 2 { fl(1) } else { Fl::Sync } });
+        }
+        steps.push(Step { op: if v % 4 == 3 { Op::RemoveOpts { key: 0, fully: true } } else { Op::Clear }, fl: fl(2) });
+        steps.push(Step { op: wr(1, "2000", 2), fl: fl(3) });
+        steps.push(Step { op: Op::Meta { key: 0 }, fl: Fl::Sync });
+        steps.push(Step { op: Op::Meta { key: 0 }, fl: Fl::Async });
+        steps.push(Step { op: Op::Read { key: 0 }, fl: Fl::Sync });
+        out.push(Program { keys, blobs, steps });
+    }
+    out
 }
 
 /// Values whose content files are directory neighbours: b0/b1 share the first digest byte
@@ -159,6 +213,28 @@ pub fn neighbours(algo: crate::blob::Algo) -> Vec<crate::blob::Blob> {
     v.extend(same2);
     v.push(Blob::new(9, 7_000_001));
     v
+}
+
+/// A key `<stem>-<n>` whose bucket file lives in the same `index-v5/<aa>/<bb>` directory as the
+/// bucket of `of` (the first two bytes of the SHA-1 agree). Memoised.
+pub fn bucket_dir_neighbour(of: &str, stem: &str) -> String {
+    use std::sync::{Mutex, OnceLock};
+    static MEMO: OnceLock<Mutex<std::collections::HashMap<(String, String), String>>> = OnceLock::new();
+    let memo = MEMO.get_or_init(Default::default);
+    if let Some(k) = memo.lock().unwrap().get(&(of.to_string(), stem.to_string())) {
+        return k.clone();
+    }
+    let h0 = crate::reffmt::sha1_hex(of.as_bytes());
+    let mut found = format!("{stem}-none");
+    for i in 0..3_000_000u32 {
+        let k = format!("{stem}-{i}");
+        if k != of && crate::reffmt::sha1_hex(k.as_bytes())[..4] == h0[..4] {
+            found = k;
+            break;
+        }
+    }
+    memo.lock().unwrap().insert((of.to_string(), stem.to_string()), found.clone());
+    found
 }
 
 /// Keys whose index buckets are directory neighbours: k0/k1 share the first two bytes of their
